@@ -306,11 +306,23 @@ func OracleC05(c *Case, obs *RunObs) *Failure {
 // more: it resumes from the same stored bytes and must end the same way, with the same output, the same
 // executions (node, input, what it saw of the shared state) and the same state pre-handler runs.
 func repeatable(c *Case, last, rp *SegObs) *Failure {
+	eager := hasEager(c)
+	if eager && (last.Class == "done" && rp.Class == "interrupt" || last.Class == "fail" || rp.Class == "fail") {
+		// eager mode: whether an interrupt-after node is collected before or after the task whose completion makes END
+		// ready, and which task of a failing step surfaces first, is a matter of scheduling
+		return nil
+	}
 	if rp.Class != last.Class {
 		return &Failure{fmt.Sprintf("the last call ended with %s without writing a checkpoint; the same call made once more (same id, same stored bytes) ends with %s (%s)", last.Class, rp.Class, rp.Err), "resume-not-repeatable"}
 	}
 	if rp.Sets != 0 {
 		return &Failure{fmt.Sprintf("the repeated last call (%s) wrote %d checkpoint(s)", rp.Class, rp.Sets), "resume-not-repeatable"}
+	}
+	if eager && last.Class == "done" {
+		if last.Out.String() != rp.Out.String() {
+			return &Failure{fmt.Sprintf("resumed twice from the same stored checkpoint: output %s the first time, %s the second", last.Out, rp.Out), "resume-not-repeatable"}
+		}
+		return nil
 	}
 	if last.Class != "done" {
 		return nil // a failing run stops wherever the failure surfaces (eager: scheduling); only the class is comparable
